@@ -181,7 +181,7 @@ def rules(ctx: Ctx) -> None:
             ctx.ob("R07.1", f"flag-loop-on-filtered-siblings:{owner}", bool(filt), loc(f.mod, n),
                    f"`for {u(n.target)} in {u(n.iter)[:50]}` carries flags {sorted(flags)} from one element to the next: the sequence must not contain comments / whitespace "
                    f"(a comment right after the keyword would consume the flag)")
-    ctx.floor("'flag then next element' loops", n_flag, 5)
+    ctx.floor("'flag then next element' loops", n_flag, 3)
 
     # ---- R07.2 keyword comparisons ------------------------------------------------------------------
     n_cmp = 0
@@ -216,7 +216,7 @@ def rules(ctx: Ctx) -> None:
                 why = "lower-cased projection needs lower-case literals"
             ctx.ob("R07.2", f"keyword-comparison-case-insensitive:{owner}:{vals[0]}", ok, loc(f.mod, n), f"`{u(n)[:70]}`: {why}", trivial=True)
             ctx.touched(f)
-    ctx.floor("keyword text comparisons", n_cmp, 25)
+    ctx.floor("keyword text comparisons", n_cmp, 21)
 
     # ---- R07.3 qualifier parts normalised one by one --------------------------------------------------
     for fq in ("parser.sqlfluff.models.SqlFluffTable.of", "parser.sqlparse.models.SqlParseTable.of"):
